@@ -888,19 +888,23 @@ async fn update_test_file<T: std::io::Write, M: MakeConnection>(
         const N: usize = 8;
         let mut buf = [0u8; N];
         loop {
-            outfile.seek(SeekFrom::End(-(N as i64))).unwrap();
-            outfile.read_exact(&mut buf).unwrap();
-            let num_newlines = buf.iter().rev().take_while(|&&b| b == b'\n').count();
+            // the file may be shorter than N bytes, or even empty
+            let len = outfile.metadata().unwrap().len();
+            let n = len.min(N as u64) as usize;
+            if n == 0 {
+                break;
+            }
+            outfile.seek(SeekFrom::End(-(n as i64))).unwrap();
+            outfile.read_exact(&mut buf[..n]).unwrap();
+            let num_newlines = buf[..n].iter().rev().take_while(|&&b| b == b'\n').count();
             assert!(num_newlines > 0);
 
             if num_newlines > 1 {
                 // if so, remove the last ones
-                outfile
-                    .set_len(outfile.metadata().unwrap().len() - num_newlines as u64 + 1)
-                    .unwrap();
+                outfile.set_len(len - num_newlines as u64 + 1).unwrap();
             }
 
-            if num_newlines == 1 || num_newlines < N {
+            if num_newlines == 1 || num_newlines < n {
                 break;
             }
         }
